@@ -670,17 +670,18 @@ class ExpressionValue(Value):
         return self.left.int if self.left.is_address() else self.right.int
 
     def calculate_address_offset(self, statements):
-        address_index = self.left.int if self.left.is_address() else self.right.int
-        additional_value = self.left.int if self.left.is_numeric() else self.right.int
-        address = statements[address_index].code_pkg.address.int
+        left = statements[self.left.int].code_pkg.address.int if self.left.is_address() else self.left.int
+        right = statements[self.right.int].code_pkg.address.int if self.right.is_address() else self.right.int
         if self.operation == "+":
-            return NumericValue(address + additional_value, size_hint=4, mode=ExplicitAddressingMode.EXTENDED)
+            return NumericValue(left + right, size_hint=4, mode=ExplicitAddressingMode.EXTENDED)
         elif self.operation == "-":
-            return NumericValue(address - additional_value, size_hint=4, mode=ExplicitAddressingMode.EXTENDED)
+            return NumericValue(left - right, size_hint=4, mode=ExplicitAddressingMode.EXTENDED)
         elif self.operation == "*":
-            return NumericValue(address * additional_value, size_hint=4, mode=ExplicitAddressingMode.EXTENDED)
+            return NumericValue(left * right, size_hint=4, mode=ExplicitAddressingMode.EXTENDED)
         else:
-            return NumericValue(int(address / additional_value), size_hint=4, mode=ExplicitAddressingMode.EXTENDED)
+            if right == 0:
+                raise ValueError("[{}] division by zero".format(self.original_value))
+            return NumericValue(int(left / right), size_hint=4, mode=ExplicitAddressingMode.EXTENDED)
 
     def is_8_bit(self):
         return False
